@@ -16,6 +16,20 @@ T={
        'The nonce is observed through the ciphertext (= R1.Seal under base_nonce XOR I2OSP(pos)) at ~190 boundary positions, over a consecutive run from 0 through the public API, on every edge of the scaled-down counter model (complete graph incl. exhaustion, invariants I1/I2 by stateright) and on all seal/export histories up to depth 5-7 from positions around 2^64-1.','positions outside the explored sets; the context is assumed to have no state besides (seq, overflowed) - explored separately by history trees','hpke-mc'),
 'C05':('model_checking','explicit-state model M(W) checked with stateright + every model edge (11 corruption classes x 2 APIs x every sealed index) replayed on the implementation; unmerged history trees over a 12-letter alphabet with the model in lock-step',
        'Receiver acceptance is decided against the abstract model and R1 on the concrete bytes after every step, including the (seq, overflowed) pair read through the hook; all edges of M(3)/M(4) under several embeddings incl. the top-aligned one (real exhaustion), and every history up to depth 3-5 from boundary start positions.','corruption classes use one representative position each (C06 enumerates all bits)','hpke-mc'),
+'C06':('model_checking','bounded-exhaustive enumeration of tampering variants (every bit of body/tag/aad, every truncation and extension length, every cross-message substitution) x 4 opening interfaces on R1-produced sessions',
+       'For each target message shape (incl. value witnesses where a cut-off byte is already 00) and position, every single-bit flip, truncation, extension and substitution is delivered to open, open_in_place_detached and both single-shot forms; each must return OpenError and the untampered message must still be accepted afterwards.','multi-bit modifications other than substitutions are not enumerated','hpke-mc'),
+'C07':('model_checking','bounded-exhaustive enumeration of single-component perturbations of the receiver setup per baseline session',
+       'For every baseline (suite x mode x shapes) every bit of info/psk/psk_id, appended/dropped bytes, field-boundary shifts, every other mode with the same data, every other KDF/AEAD, other recipient key, other and bit-flipped/negated enc is applied to the receiver: setup must fail or all sender ciphertexts are rejected and all exports differ; the unperturbed receiver is the non-vacuity control.','exports of >= 16 bytes are taken as different iff unequal','hpke-mc'),
+'C08':('model_checking','bounded-exhaustive enumeration of impostor senders per receiver (identity pairs, pk-only pairing, non-auth modes, negated identity, every PSK / PSK-id bit)',
+       'A receiver in Auth/AuthPsk/Psk mode is confronted with sessions from each impostor class; none may be accepted (no ciphertext opens, every export differs), the honest sender must be.','impostor key pairs are derived from seeds; PSK bit flips use stride 7 for P-384/P-521 and 300-byte PSKs','hpke-mc'),
+'C10':('model_checking','exhaustive enumeration of the 14 small-order encodings x roles x modes x KDF x AEAD x interfaces, oracle = R1 zero-DH predicate; 1556 negatives',
+       'Every small-order encoding in every role and mode in which it takes part in a DH must abort setup with EncapError/DecapError (setup and single-shot forms), keys that are in no DH or not of small order must be accepted and yield R1 outputs.','the list of 14 encodings is recomputed from scratch by R2 and validated against R1 at run time','hpke-mc'),
+'C13':('model_checking','bounded-exhaustive enumeration of input lengths at every byte-consuming entry point, panics observed through catch_unwind with overflow checks and debug assertions on',
+       'Deserialization, setup (info/psk/psk_id), open forms (ciphertext/aad/tag), export (context and output length) and derive_keypair are called with every length of the boundary sets and several fills; each call must return Ok or an HpkeError, and setup errors must be EncapError resp. DecapError.','allocation failure (abort) is not intercepted: an abort kills the run and is reported by ./check as a C13 violation','hpke-mc'),
+'C14':('model_checking','bounded-exhaustive enumeration: single-shot vs composed operations run side by side under the same RNG script, over success and every failure class',
+       'single_shot_seal*/open* and the composed setup+seal/open are executed on the same inputs (incl. small-order encapsulated keys, truncated and corrupted ciphertexts) and must agree in results, errors and RNG draws; allocating and in-place forms must agree for every split; R1 is compared too so a mutant cannot agree with itself.','','hpke-mc'),
+'C15':('model_checking','exhaustive enumeration of all (|psk|,|psk_id|) pairs up to 40/80 bytes x fills for the constructor; PSK-mode key schedules vs R1',
+       'PskBundle::new must succeed exactly when both strings are empty or both non-empty (InvalidPskBundle otherwise) for every length pair; the bundle contents must be what enters the key schedule (sender and receiver vs R1, lengths chosen so that swaps/truncations are visible); non-PSK modes use the empty defaults.','','hpke-mc'),
 'C11':('model_checking','bounded-exhaustive enumeration of export lengths/contexts vs R1 LabeledExpand; export as an action in every state of the session model',
        'Every L around 0, Nh, 255*Nh and 2^16 for 48 suites x 4 modes x 2 roles, every L at all for one suite per KDF, compared in full with R1; export after seals/opens/rejections/exhaustion (model edges); export-only suites must panic on every seal/open form.','exporter contexts beyond the listed lengths/fills','hpke-mc'),
 'C16':('exploration','exhaustive exploration of drop points (every prefix of a short history, both roles, 48 suites x 4 modes): heap-slot memory scan from guard-off and guard-on builds + drop ledger',
